@@ -194,11 +194,35 @@ Owned(e) ==
                        NormAttrs(Kid(items[k], "res")[1].a), NormAttrs(Kid(items[k], "scope")[1].a)>>])
   IN If(Has(e, mpt) /\ wire # inp, D(e, "Owned", mpt))
 
+\* traces: every span row with its own attribute set and the bags of its events' names and its links' trace ids, against
+\* every input span with the same three things - events and links stay with the span they were given to
+TokBagOf(rows, pids, x) ==
+  LET S == IF x = NULL THEN {} ELSE {j \in DOMAIN rows : pids[j] = x}
+  IN [t \in {rows[j].tok : j \in S} |-> Cardinality({j \in S : rows[j].tok = t})]
+NodeTokBag(ns, pre, fld) ==
+  [t \in {pre \o ns[j].f[fld][2] : j \in DOMAIN ns} |-> Cardinality({j \in DOMAIN ns : pre \o ns[j].f[fld][2] = t})]
+OwnedChildren(e) ==
+  IF e.sig # "traces" \/ ~Has(e, "SPANS") THEN {}
+  ELSE
+  LET rows == TabOf(e, "SPANS")
+      ids == Ids("SPANS", rows)
+      own == IF Has(e, "SPAN_ATTRS") THEN WireAttrSets("SPAN_ATTRS", TabOf(e, "SPAN_ATTRS")) ELSE [x \in {} |-> {}]
+      evr == TabOf(e, "SPAN_EVENTS")
+      evp == IF Has(e, "SPAN_EVENTS") THEN Pids("SPAN_EVENTS", evr) ELSE <<>>
+      lkr == TabOf(e, "SPAN_LINKS")
+      lkp == IF Has(e, "SPAN_LINKS") THEN Pids("SPAN_LINKS", lkr) ELSE <<>>
+      wire == BagOf([k \in DOMAIN rows |-> <<Lookup(own, ids[k]), TokBagOf(evr, evp, ids[k]), TokBagOf(lkr, lkp, ids[k])>>])
+      items == Items(e)
+      inp == BagOf([k \in DOMAIN items |->
+                     <<NormAttrs(items[k].a), NodeTokBag(Kid(items[k], "events"), "n", 1), NodeTokBag(Kid(items[k], "links"), "t", 1)>>])
+  IN If(wire # inp, D(e, "OwnedChildren", "SPANS"))
+
 Judge(e) ==
   (UNION {TableChecks(e, Tabs(e)[k]) : k \in DOMAIN Tabs(e)})
   \cup If(~Has(e, MainPt(e)), D(e, "NoMainRecord", MainPt(e)))
   \cup Conserved(e)
   \cup Owned(e)
+  \cup OwnedChildren(e)
 
 Init == i = 1 /\ drift = {} /\ nrows = 0
 Next ==
